@@ -83,6 +83,21 @@ pub fn check_fault_point(sc: &Scenario, s: usize, n: usize, dir: &Path, out: &mu
 			}
 		}
 	}
+	// Every other fault point of a process_commits step is confined to the log worker: its file
+	// operations keep failing, those of the other workers do not (a full disk: `write` fails,
+	// syncs and mapped stores work). The flush worker and the commit worker each run once more
+	// before they see the shutdown flag.
+	if matches!(op, Op::P) && (n ^ s) & 1 == 1 && it.db.is_some() {
+		disarm();
+		if let Some(db) = it.db.as_ref() {
+			let _ = db.flush_logs();
+			let _ = db.enact_logs();
+		}
+		if let Err(f) = it.check_reads(false) {
+			return Err(Failure::new(format!("after-io-error:{}", f.sig), format!("after the failure of op {s} at file operation {n} (confined to the log worker; flush and commit worker ran once more): {}", f.detail)))
+		}
+		out.count("faults_confined_to_the_log_worker", 1);
+	}
 	// drop with the fault still present
 	set_faults(0);
 	let committed = it.committed;
